@@ -1,25 +1,28 @@
 #!/bin/bash
-# Usage: verify_seeds.sh [root=/tmp/seed]
+# Usage: verify_seeds.sh [root=/tmp/seed] [property]   (with a property: only that one, in its own scratch directory and
+#        output file verify.<property>.tsv, so that several can run side by side)
 # Confirms every candidate seeded fault under <root>/<id>/out/<x>/ in a scratch worktree:
 #  builds, passes the pinned suite, demo fails with the patch and passes without it.
-# Writes /tmp/seed/verify.tsv
+# Writes <root>/verify.tsv
 set -u
 export GOFLAGS=-mod=mod GOPROXY=off
 ROOT=${1:-/tmp/seed}
 # the scratch worktree lives outside /tmp so that the suite can run with a private tmpfs on /tmp
 # (the suite binds the fixed path /tmp/rstest.sock; concurrent runs would collide)
-SV=/var/tmp/sv
+ONLY=${2:-}
+SV=/var/tmp/sv${ONLY:+.$ONLY}
 WT=$SV/wt
 rm -rf $SV; mkdir -p $SV
 suite() { unshare -rm sh -c "mount -t tmpfs tmpfs /tmp && cd $WT && timeout 600 go test -vet=off -count=1 ./..."; }
 git -C /repo worktree prune
 git -C /repo worktree add --detach $WT HEAD -q || exit 2
-out=$ROOT/verify.tsv
+out=$ROOT/verify${ONLY:+.$ONLY}.tsv
 : > $out
 # two layouts: <root>/<id>/out/<x>/ (as the sub-agents deliver) and <root>/<id>-<x>/ (as stored in /verif/seeded,
 # demos named *_test.go.txt)
 for d in $ROOT/C*/out/[abc1-9] $ROOT/C??-?; do
   [ -f $d/patch.diff ] || continue
+  case $d in $ROOT/${ONLY:-C}*) ;; *) continue;; esac
   case $d in
     */out/*) id=$(basename $(dirname $(dirname $d))); x=$(basename $d);;
     *) b=$(basename $d); id=${b%-*}; x=${b#*-};;
